@@ -41,6 +41,9 @@ def run(ch, build):
             pads = ["padbyte:%d:%d" % (e, k) for e in range(16) for k in range(15)]
             if ch.quick():
                 pads = ["padbyte:%d:0" % e for e in rng.sample(range(16), 4)] + rng.sample(pads, 8)
+            # several pad bytes wrong together (2 x bit 7, 4 x bit 6, 8 x bit 5, 16 x bit 4): sums and xors of the differences cancel
+            pads += ["padmulti:%d:%d" % (e, k) for e in range(16) for k in range(4)] if not ch.quick() else \
+                    ["padmulti:%d:%d" % (rng.randrange(16), k) for k in range(4)] + ["padmulti:%d:%d" % (e, 0) for e in rng.sample(range(16), 3)]
             # a pad longer than 15 bytes whose every byte is right (01 02 .. N, N), on a ciphertext long enough to hold it
             pads += ["padlong:%d" % n for n in ((17, 24, 40, 104, 248) if not ch.quick() else (17, rng.choice([24, 40, 104]), 248))]
             for f in CATALOGUE + pads + ["valid"]:
